@@ -745,3 +745,75 @@ Lemma checks_mean :
 Proof.
   exact (conj rec_clean_spec (conj mset_eqb_perm (conj rec_frame_spec (conj recs_eqb_eq rec_phase_relb_spec)))).
 Qed.
+
+(* ---------------------------------------------------------------------------------- the header *)
+Lemma filter_filter_comm : forall (A : Type) (f g : A -> bool) (l : list A),
+  filter f (filter g l) = filter g (filter f l).
+Proof.
+  intros A f g l. induction l as [|x t IH]; cbn [filter]; [reflexivity|].
+  destruct (g x) eqn:G; destruct (f x) eqn:F; cbn [filter]; try rewrite G; try rewrite F; rewrite IH; reflexivity.
+Qed.
+
+Lemma filter_idem : forall (A : Type) (f : A -> bool) (l : list A), filter f (filter f l) = filter f l.
+Proof.
+  intros A f l. induction l as [|x t IH]; cbn [filter]; [reflexivity|].
+  destruct (f x) eqn:F; cbn [filter]; [rewrite F, IH; reflexivity | exact IH].
+Qed.
+
+Lemma drop_phasing_rfp : forall h, drop_phasing (remove_first_phasing h) = drop_phasing h.
+Proof.
+  unfold drop_phasing. induction h as [|[[k i] t] r IH]; cbn [remove_first_phasing]; [reflexivity|].
+  destruct (k =? 0) eqn:E.
+  - cbn [filter is_phasing_line]. rewrite E. reflexivity.
+  - cbn [filter is_phasing_line]. rewrite E. cbn [negb]. rewrite IH. reflexivity.
+Qed.
+
+(* apart from `##phasing` lines the output header is the input header without the HP/PS/PQ FORMAT definitions *)
+Lemma header_frames : forall h, drop_phasing (unphase_header h) = filter hline_keep (drop_phasing h).
+Proof.
+  intros h. unfold unphase_header. unfold drop_phasing at 1. rewrite filter_filter_comm.
+  fold (drop_phasing (remove_first_phasing h)). rewrite drop_phasing_rfp. reflexivity.
+Qed.
+
+Lemma header_clean_unphase : forall h, header_clean (unphase_header h) = true.
+Proof.
+  intros h. unfold header_clean, unphase_header. apply forallb_forall. intros l H. apply filter_In in H. apply H.
+Qed.
+
+Lemma header_clean_spec : forall h, header_clean h = true <->
+  forall k i t, In (k, i, t) h -> k = 1 -> i <> K_HP /\ i <> K_PS /\ i <> K_PQ.
+Proof.
+  intros h. unfold header_clean. rewrite forallb_forall. split.
+  - intros H k i t Hin Hk. specialize (H _ Hin). cbn [hline_keep] in H. subst k. cbn [Z.eqb Pos.eqb andb] in H.
+    apply negb_true_iff in H. apply phase_key_cases. exact H.
+  - intros H [[k i] t] Hin. cbn [hline_keep]. apply negb_true_iff. destruct (k =? 1) eqn:E; [|reflexivity].
+    apply Z.eqb_eq in E. cbn [andb]. apply phase_key_cases. exact (H k i t Hin E).
+Qed.
+
+Lemma header_idem_modulo_phasing : forall h,
+  drop_phasing (unphase_header (unphase_header h)) = drop_phasing (unphase_header h).
+Proof. intros h. rewrite (header_frames (unphase_header h)). rewrite header_frames. apply filter_idem. Qed.
+
+(* the `##phasing` lines: exactly the first one is removed *)
+Lemma phasing_lines_rfp : forall h, filter is_phasing_line (remove_first_phasing h) = tl (filter is_phasing_line h).
+Proof.
+  induction h as [|[[k i] t] r IH]; cbn [remove_first_phasing]; [reflexivity|].
+  destruct (k =? 0) eqn:E; cbn [filter is_phasing_line]; rewrite E; [reflexivity | exact IH].
+Qed.
+
+Lemma phasing_lines_keep : forall h, filter is_phasing_line (filter hline_keep h) = filter is_phasing_line h.
+Proof.
+  induction h as [|[[k i] t] r IH]; cbn [filter]; [reflexivity|].
+  destruct (hline_keep (k, i, t)) eqn:K; cbn [filter].
+  - rewrite IH. reflexivity.
+  - cbn [hline_keep] in K. apply negb_false_iff in K. apply andb_true_iff in K. destruct K as [K _].
+    apply Z.eqb_eq in K. subst k. cbn [is_phasing_line Z.eqb]. exact IH.
+Qed.
+
+Lemma header_phasing_lines : forall h,
+  filter is_phasing_line (unphase_header h) = tl (filter is_phasing_line h).
+Proof. intros h. unfold unphase_header. rewrite phasing_lines_keep. apply phasing_lines_rfp. Qed.
+
+(* hence the whole header is not a fixed point when the input has two `##phasing` lines *)
+Lemma header_idem_strict_refuted : ~ (forall h, unphase_header (unphase_header h) = unphase_header h).
+Proof. intros H. specialize (H [(0, 0, 5); (0, 0, 6)]). cbn in H. discriminate. Qed.
